@@ -335,3 +335,57 @@ Proof. change 1 with (Z.ones 1). rewrite Z.land_ones by lia. reflexivity. Qed.
 
 Lemma N_land_1 a : N.land a 1 = (a mod 2)%N.
 Proof. change 1%N with (N.ones 1). rewrite N.land_ones. reflexivity. Qed.
+
+(* ------------------------------------------------------------------ byte arrays given as N lists *)
+
+Lemma rd_map_of_N (l : list N) (i : nat) :
+  (i < length l)%nat -> rd (map Z.of_N l) (Z.of_nat i) = Z.of_N (nth i l 0%N).
+Proof.
+  intros H. unfold rd. rewrite Nat2Z.id. change 0 with (Z.of_N 0). apply map_nth.
+Qed.
+
+Lemma skipn_cons_nth {A} (d : A) (l : list A) (i : nat) :
+  (i < length l)%nat -> skipn i l = nth i l d :: skipn (S i) l.
+Proof.
+  revert i. induction l as [|x l IH]; intros i H; [cbn in H; lia|].
+  destruct i as [|i]; [reflexivity|]. cbn [skipn nth]. apply IH. cbn in H. lia.
+Qed.
+
+Lemma Z_eqb_of_N (a b : N) : Z.eqb (Z.of_N a) (Z.of_N b) = N.eqb a b.
+Proof. destruct (Z.eqb_spec (Z.of_N a) (Z.of_N b)), (N.eqb_spec a b); try reflexivity; lia. Qed.
+
+(** one group of a little-endian base-128 number: (uint32_t / uint64_t)(byte & 0x7F) << shift *)
+Lemma varint_group (w : Z) (b shift : N) :
+  (w = 32 \/ w = 64) -> (Z.of_N shift < w) ->
+  cshl_u w (wrapu w (Z.land (Z.of_N b) 127)) (Z.of_N shift)
+  = Z.of_N ((N.shiftl (N.land b 127) shift) mod 2 ^ Z.to_N w)%N.
+Proof.
+  intros Hw Hs. change 127 with (Z.of_N 127). rewrite <- of_N_land.
+  assert (B : (N.land b 127 < 128)%N).
+  { change 127%N with (N.ones 7). rewrite N.land_ones. apply N.mod_lt. discriminate. }
+  rewrite wrapu_small by (destruct Hw; subst w; blia).
+  rewrite cshl_u_shiftl by lia. unfold wrapu. rewrite <- of_N_shiftl.
+  rewrite N2Z.inj_mod, N2Z.inj_pow. rewrite Z2N.id by (destruct Hw; lia). reflexivity.
+Qed.
+
+Lemma upd_at (pre rest : list Z) (x y : Z) :
+  upd (pre ++ x :: rest) (Z.of_nat (length pre)) y = pre ++ y :: rest.
+Proof.
+  unfold upd. destruct (Z.ltb_spec (Z.of_nat (length pre)) 0) as [H|H]; [lia|]. clear H. rewrite Nat2Z.id.
+  induction pre as [|a pre IH]; [reflexivity|]. cbn [length app upd_nat]. rewrite IH. reflexivity.
+Qed.
+
+(** (uint8_t)(v | 0x80) = (v & 0x7F) | 0x80 *)
+Lemma byte_cont (v : N) : wrapu 8 (Z.lor (Z.of_N v) 128) = Z.of_N (N.lor (N.land v 127) 128).
+Proof.
+  change 128 with (Z.of_N 128). rewrite <- of_N_lor. unfold wrapu. change (2 ^ 8) with (Z.of_N (2 ^ 8)).
+  rewrite <- N2Z.inj_mod. f_equal. rewrite <- N.land_ones.
+  apply N.bits_inj. intros k. rewrite !N.land_spec, !N.lor_spec, N.land_spec.
+  change 127%N with (N.ones 7). change 128%N with (2 ^ 7)%N. rewrite N.pow2_bits_eqb.
+  destruct (N.lt_ge_cases k 7) as [L|G].
+  - rewrite (N.ones_spec_low 7 k L), (N.ones_spec_low 8 k) by lia.
+    destruct (N.eqb_spec 7 k); [lia|]. rewrite !andb_true_r, !orb_false_r. reflexivity.
+  - rewrite (N.ones_spec_high 7 k G). destruct (N.eqb_spec 7 k) as [<-|NE].
+    + rewrite (N.ones_spec_low 8 7) by lia. rewrite !orb_true_r. reflexivity.
+    + rewrite (N.ones_spec_high 8 k) by lia. rewrite !andb_false_r. reflexivity.
+Qed.
